@@ -310,6 +310,7 @@ func (s *Server) Subscribe(stream pb.GNMI_SubscribeServer) error {
 			c.queue.Insert(syncMarker{})
 		}
 		verifAt("stream.register", stream)
+		verifAt("stream.queue", [2]interface{}{stream, c.queue})
 		remove := addSubscription(s.m, c.sr.GetSubscribe(),
 			&matchClient{acl: c.acl, q: c.queue})
 		verifAt("stream.registered", stream)
